@@ -129,6 +129,12 @@ Qed.
 Theorem C10_no_expires_parameter_no_value : forall h p L t i b d, Forall (fun t => t_is_exp t = false) (L ++ [t]) ->
   fb_expires (finW h d (t_apply p (i + nnat (length (its_bytes L))) t (its_state p i L b))) = fb_expires b.
 Proof. exact gen_expires_none. Qed.
+(* a parameter named q in the general parameter part hands exactly its value text to the q conversion described by C10_q_with_decimals,
+   C10_q_without_decimals, C10_q_more_than_three_decimals_flagged *)
+Theorem C10_q_in_the_general_parameter_part : forall p i t b g2 g3 V, t_val t = Some (g2, g3, V) ->
+  eqb_nocase (t_name t) str_tag = false -> eqb_nocase (t_name t) str_expires = false -> eqb_nocase (t_name t) str_q = true ->
+  t_apply p i t b = pclr (set_q V (W b (st_newparam p) (t_a i t) (t_e i t) (t_c i t) (t_d i t) (prm1 (fb_params b) (t_a i t)))).
+Proof. exact t_apply_q. Qed.
 Print Assumptions C10_expires_in_the_general_parameter_part.
 Print Assumptions C10_q_with_decimals.
 Print Assumptions C10_q_in_a_value.
